@@ -70,6 +70,9 @@ pub fn gen_text(rng: &mut Rng, n: usize) -> Vec<u32> {
         6 => 0x1F60D,
         7 => 0x1D4B3,
         8 => 32,
+        // code points at the boundaries of the encodings: last/first of each UTF-8 length, around the surrogate gap,
+        // last BMP code point (one UTF-16 unit) and first astral one (two), the last code point of all
+        9 if rng.chance(1, 3) => *rng.pick(&[0x7Fu32, 0x80, 0x7FF, 0x800, 0xD7FF, 0xE000, 0xFFFD, 0xFFFE, 0xFFFF, 0x10000, 0x10FFFF]),
         _ => 97 + rng.below(26) as u32,
     }).collect()
 }
